@@ -417,7 +417,28 @@ func vfQuiesceSerial(c *verifrt.Ctl) {
 	}
 }
 
-const vfIdleStepLimit = 64
+// vfIdleStepLimit: statements mailbox goroutines may execute in a row without a handler call or an external operation.
+// Every Enqueue / Resume may legitimately start one consumer that finds nothing it is allowed to handle and goes back to
+// idle (about 13 statements); when all external operations of a program are issued first and the consumers they started
+// run afterwards (the stall class of the schedules makes that likely), those futile runs add up. The limit therefore
+// grows with the number of operations that can start a consumer; a mailbox that really spins is unbounded and runs into
+// the step budget (6 000) whatever the limit. (Fixed limit 64: one false alarm in 1 000 000 thorough schedules -
+// 5 enqueues to a paused mailbox, 65 statements.)
+func vfIdleStepLimit(setup []vfOp, progs [][]vfOp) int64 {
+	n := len(setup)
+	for _, p := range progs {
+		n += len(p)
+		for _, o := range p {
+			if o.Msg.Act != 0 {
+				n += 2 // the handler's own enqueue / pause / resume
+			}
+		}
+	}
+	if l := int64(20 * (n + 1)); l > 64 {
+		return l
+	}
+	return 64
+}
 
 func TestVerif_mailboxsched(t *testing.T) {
 	R := verifrt.NewReport("mailboxsched", "PRNG programs (1-4 goroutines x 1-6 ops from {EnqueueUser, EnqueueSystem, Pause, Resume}; 30% of messages make the handler enqueue to / pause / resume its own mailbox; ring initial size 2) executed on the real UnboundedMailbox under a serialized random schedule: every statement of unbounded_mailbox.go is a yield point (vinstr) and exactly one goroutine runs between two points (synctest virtual time, bursty delays). non-trivial+distinct = distinct interleaving hashes (sequence of yield-point sites) of cases with >=2 goroutines or >=1 Pause")
@@ -476,8 +497,8 @@ func TestVerif_mailboxsched(t *testing.T) {
 				for k, v := range c.Sites() {
 					sites[k] += v
 				}
-				if c.Aborted() || c.MaxIdleSteps() > vfIdleStepLimit {
-					viol = append(viol, [2]string{"spin", fmt.Sprintf("mailbox goroutine executed %d statements in a row without handling anything or any external operation (limit %d; step budget exhausted=%v) status=%d num=%d systemNum=%d paused=%d", c.MaxIdleSteps(), vfIdleStepLimit, c.Aborted(), atomic.LoadUint32(&mon.mb.status), atomic.LoadInt32(&mon.mb.num), atomic.LoadInt32(&mon.mb.systemNum), atomic.LoadUint32(&mon.mb.paused))})
+				if limit := vfIdleStepLimit(setup, progs); c.Aborted() || c.MaxIdleSteps() > limit {
+					viol = append(viol, [2]string{"spin", fmt.Sprintf("mailbox goroutine executed %d statements in a row without handling anything or any external operation (limit %d; step budget exhausted=%v) status=%d num=%d systemNum=%d paused=%d", c.MaxIdleSteps(), limit, c.Aborted(), atomic.LoadUint32(&mon.mb.status), atomic.LoadInt32(&mon.mb.num), atomic.LoadInt32(&mon.mb.systemNum), atomic.LoadUint32(&mon.mb.paused))})
 					return
 				}
 				// (c) quiescent-state invariant
